@@ -1,1 +1,270 @@
+import Got.Model.Atomics
+import Got.Lemmas.Atomics
 /- property theorems of C17 (only theorems + non-vacuity examples live here) -/
+open Got.Model.Atomics Got.Lemmas.Atomics
+
+/-! ## TryLock excludes -/
+
+/-- Mutual exclusion, for every number of goroutines and every interleaving of TryLock steps, Unlock by holders and the
+    transcribed sync.Mutex steps (fast/slow-path CAS, spinning, wake-up, starvation hand-off), from any unlocked
+    initial word: at most one goroutine is inside the critical section, the locked bit tells whether there is one, and
+    a hand-off in transit implies an unlocked word in starvation mode (which TryLock refuses). -/
+theorem C17_trylock_excl (w0 : Word) (h0 : isLocked w0 = false) (acts : List MAct) :
+    let s := runM (initM w0) acts
+    s.holders.length ≤ 1 ∧ isLocked s.word = !s.holders.isEmpty ∧
+    (s.handoff = true → isStarving s.word = true ∧ isLocked s.word = false) := by
+  have h := runM_inv _ acts (initM_inv w0 h0)
+  exact ⟨h.le_one, h.locked_iff, h.handoff⟩
+
+/-- A successful TryLock step (either CAS) happens only when the word shows not locked, not starving and not woken, when
+    nobody holds the mutex and no hand-off is in transit; it sets exactly the locked bit and makes the caller the holder.
+    A failing CAS changes neither the word nor the holders. -/
+theorem C17_trylock_success (w0 : Word) (h0 : isLocked w0 = false) (acts : List MAct) (t : Nat) :
+    let s := runM (initM w0) acts
+    (s.pc t = .cas1 →
+      let s' := stepM s (.tryCas1 t)
+      (s.word = 0 → s.holders = [] ∧ s.handoff = false ∧ s'.holders = [t] ∧ s'.word = s.word ||| mLocked ∧
+                     s'.res t = some true) ∧
+      (s.word ≠ 0 → s'.holders = s.holders ∧ s'.word = s.word ∧ s'.res t = s.res t)) ∧
+    (∀ old, s.pc t = .cas2 old →
+      let s' := stepM s (.tryCas2 t)
+      (s.word = old → (s.word &&& (mLocked ||| mStarving ||| mWoken) != 0) = false ∧ s.holders = [] ∧
+                       s.handoff = false ∧ s'.holders = [t] ∧ s'.word = s.word ||| mLocked ∧ s'.res t = some true) ∧
+      (s.word ≠ old → s'.holders = s.holders ∧ s'.word = s.word ∧ s'.res t = some false)) := by
+  intro s
+  have h : MInv s := runM_inv _ acts (initM_inv w0 h0)
+  constructor
+  · intro hpc
+    constructor
+    · intro hw
+      have hz : isLocked s.word = false := by rw [hw]; exact zero_flags.1
+      have hn := holders_nil_of_unlocked h hz
+      have hf : s.handoff = false := handoff_false_of h (Or.inl (by rw [hw]; exact zero_flags.2))
+      refine ⟨hn, hf, ?_, ?_, ?_⟩ <;> simp [stepM, hpc, hw, hn, upd_same, mLocked_eq]
+    · intro hw
+      have hw' : ¬ s.word = 0#32 := hw
+      refine ⟨?_, ?_, ?_⟩ <;> simp [stepM, hpc, hw']
+  · intro old hpc
+    constructor
+    · intro hw
+      have hm := h.cas2 t old hpc
+      have hf := or_locked old (mask7_imp old hm)
+      have hz : isLocked s.word = false := by rw [hw]; exact hf.1
+      have hn := holders_nil_of_unlocked h hz
+      have hh : s.handoff = false := handoff_false_of h (Or.inl (by rw [hw]; exact hf.2.1))
+      refine ⟨by rw [hw]; exact hm, hn, hh, ?_, ?_, ?_⟩ <;> simp [stepM, hpc, hw, hn, upd_same]
+    · intro hw
+      refine ⟨?_, ?_, ?_⟩ <;> simp [stepM, hpc, hw, upd_same]
+
+/-- No other step reports a TryLock success: `res t` becomes `some true` only through one of the two successful CASes. -/
+theorem C17_trylock_true_only_by_cas (s : MSt) (a : MAct) (t : Nat)
+    (h : (stepM s a).res t = some true) :
+    s.res t = some true ∨ (a = .tryCas1 t ∧ s.pc t = .cas1 ∧ s.word = 0) ∨
+      (∃ old, a = .tryCas2 t ∧ s.pc t = .cas2 old ∧ s.word = old) := by
+  cases a with
+  | tryStart u => simp only [stepM] at h; split at h <;> exact Or.inl h
+  | tryCas1 u =>
+    simp only [stepM] at h
+    split at h
+    · next hpc =>
+      split at h
+      · next hw =>
+        by_cases e : t = u
+        · subst e; exact Or.inr (Or.inl ⟨rfl, hpc, hw⟩)
+        · dsimp only at h; rw [upd_other _ _ _ _ e] at h; exact Or.inl h
+      · exact Or.inl h
+    · exact Or.inl h
+  | tryLoad u =>
+    simp only [stepM] at h
+    split at h
+    · split at h
+      · by_cases e : t = u
+        · subst e; dsimp only at h; rw [upd_same] at h; cases h
+        · dsimp only at h; rw [upd_other _ _ _ _ e] at h; exact Or.inl h
+      · exact Or.inl h
+    · exact Or.inl h
+  | tryCas2 u =>
+    simp only [stepM] at h
+    split at h
+    · next old hpc =>
+      split at h
+      · next hw =>
+        by_cases e : t = u
+        · subst e; exact Or.inr (Or.inr ⟨old, rfl, hpc, hw⟩)
+        · dsimp only at h; rw [upd_other _ _ _ _ e] at h; exact Or.inl h
+      · by_cases e : t = u
+        · subst e; dsimp only at h; rw [upd_same] at h; cases h
+        · dsimp only at h; rw [upd_other _ _ _ _ e] at h; exact Or.inl h
+    · exact Or.inl h
+  | unlock u => simp only [stepM] at h; split at h <;> exact Or.inl h
+  | lockFast u => simp only [stepM] at h; split at h <;> exact Or.inl h
+  | lockSlowCas u aw st =>
+    simp only [stepM] at h
+    split at h
+    · exact Or.inl h
+    · split at h <;> exact Or.inl h
+  | spinWoken u => simp only [stepM] at h; split at h <;> exact Or.inl h
+  | wake u => simp only [stepM] at h; split at h <;> exact Or.inl h
+  | handoffTake u st =>
+    simp only [stepM] at h
+    split at h
+    · split at h <;> exact Or.inl h
+    · exact Or.inl h
+
+/-- A mutex held through TryLock (or any other way) is released by the ordinary Unlock transition
+    `AddInt32(&state, -mutexLocked)`: afterwards nobody holds it and the locked bit is clear. -/
+theorem C17_trylock_unlock (w0 : Word) (h0 : isLocked w0 = false) (acts : List MAct) (t : Nat) :
+    let s := runM (initM w0) acts
+    t ∈ s.holders →
+      let s' := stepM s (.unlock t)
+      s'.word = s.word - mLocked ∧ s'.holders = [] ∧ isLocked s'.word = false := by
+  intro s hmem
+  have h : MInv s := runM_inv _ acts (initM_inv w0 h0)
+  have h' : MInv (stepM s (.unlock t)) := stepM_inv s _ h
+  have hw : (stepM s (.unlock t)).word = s.word - mLocked := by simp [stepM, hmem]
+  have hl : isLocked s.word = true := by
+    rw [h.locked_iff]
+    cases hh : s.holders with
+    | nil => rw [hh] at hmem; cases hmem
+    | cons a l => rfl
+  have hu : isLocked (stepM s (.unlock t)).word = false := by rw [hw]; exact (sub_locked s.word hl).1
+  exact ⟨hw, holders_nil_of_unlocked h' hu, hu⟩
+
+/-- non-vacuity: two goroutines race TryLock on a free mutex; the first CAS wins, the loser is refused, Unlock releases -/
+example :
+    let s := runM (initM 0) [.tryStart 1, .tryStart 2, .tryCas1 1, .tryCas1 2, .tryLoad 2]
+    s.holders = [1] ∧ s.res 1 = some true ∧ s.res 2 = some false ∧ s.word = 1#32 ∧
+    (stepM s (.unlock 1)).word = 0#32 := by decide
+
+/-- non-vacuity: the load/CAS gap — goroutine 2 loads an unlocked word with a waiter, goroutine 1 takes the lock in the
+    gap, goroutine 2's CAS fails -/
+example :
+    let s := runM (initM 8#32) [.tryStart 1, .tryStart 2, .tryCas1 2, .tryLoad 2, .tryCas1 1, .tryLoad 1, .tryCas2 1, .tryCas2 2]
+    s.holders = [1] ∧ s.res 1 = some true ∧ s.res 2 = some false ∧ s.word = 9#32 := by decide
+
+/-- non-vacuity: a starving, unlocked word (hand-off in transit) is refused -/
+example :
+    let s := runM (initM 12#32) [.tryStart 1, .tryCas1 1, .tryLoad 1]
+    s.holders = [] ∧ s.res 1 = some false := by decide
+
+/-! ## Flag: no lost update -/
+
+/-- For every number of goroutines, all programs and all interleavings: the flag value is the sequential fold, in CAS
+    order, of exactly the calls whose CAS succeeded, and every call appears in that order exactly once when it has
+    returned (and not at all while it is pending). -/
+theorem C17_flag_atomic (v0 : W64) (acts : List FAct) :
+    let s := runF (initF v0) acts
+    s.val = s.log.foldl (fun v e => e.2.apply v) v0 ∧
+    ∀ t, (s.log.filter (fun e => e.1 == t)).length + (if s.pc t = .idle then 0 else 1) = s.calls t := by
+  have h := runF_inv v0 _ acts (initF_inv v0)
+  exact ⟨h.val_eq, h.once⟩
+
+/-- A call takes effect only at its successful CAS, atomically on the current value, as `v ↦ v ||| f` resp.
+    `v &&& ~~~f`; a failed CAS and the other steps change nothing. -/
+theorem C17_flag_step (s : FSt) (a : FAct) :
+    (∃ t op, a = .cas t ∧ s.pc t = .cas op s.val ∧
+        (stepF s a).val = op.apply s.val ∧ (stepF s a).log = s.log ++ [(t, op)] ∧ (stepF s a).pc t = .idle) ∨
+    ((stepF s a).val = s.val ∧ (stepF s a).log = s.log) := by
+  cases a with
+  | invoke t op => right; simp only [stepF]; split <;> exact ⟨rfl, rfl⟩
+  | load t => right; simp only [stepF]; split <;> exact ⟨rfl, rfl⟩
+  | cas t =>
+    simp only [stepF]
+    split
+    · next op last hpc =>
+      split
+      · next hv =>
+        left
+        refine ⟨t, op, rfl, by rw [hpc, hv], ?_, rfl, upd_same _ _ _⟩
+        show op.apply last = op.apply s.val
+        rw [hv]
+      · right; exact ⟨rfl, rfl⟩
+    · right; exact ⟨rfl, rfl⟩
+
+/-- Adds only: the value is the initial value OR-ed with the flags of all completed calls, so every completed
+    AddFlag's bits are present whatever the contention. -/
+theorem C17_flag_adds_or (v0 : W64) (acts : List FAct)
+    (hadd : ∀ e ∈ (runF (initF v0) acts).log, ∃ f, e.2 = FOp.add f) :
+    let s := runF (initF v0) acts
+    s.val = orFlags v0 s.log ∧ ∀ e ∈ s.log, ∀ f, e.2 = FOp.add f → s.val &&& f = f := by
+  intro s
+  have h := runF_inv v0 _ acts (initF_inv v0)
+  have hv : s.val = orFlags v0 s.log := by rw [h.val_eq]; exact foldOps_adds v0 _ hadd
+  refine ⟨hv, ?_⟩
+  intro e he f hf
+  rw [hv]
+  exact orFlags_contains v0 _ e f he hf
+
+/-- non-vacuity: both goroutines load 0, the first CAS succeeds, the second fails and retries — no bit is lost -/
+example :
+    let s := runF (initF 0) [.invoke 1 (.add 1), .invoke 2 (.add 2), .load 1, .load 2, .cas 1, .cas 2, .load 2, .cas 2]
+    s.val = 3#64 ∧ s.log = [(1, .add 1), (2, .add 2)] ∧ s.pc 1 = .idle ∧ s.pc 2 = .idle := by decide
+
+/-! ## AddIf64: the predicate holds at the instant of the update -/
+
+/-- Any invariant that the guarded update preserves (`pred d v → Inv v → Inv (v + d)`) holds in every reachable state,
+    for every number of goroutines and every interleaving; the value is the initial value plus the deltas of the
+    successful calls. -/
+theorem C17_addif (pred : W64 → W64 → Bool) (Inv : W64 → Prop)
+    (hcl : ∀ d v, pred d v = true → Inv v → Inv (v + d)) (v0 : W64) (h0 : Inv v0) (acts : List AAct) :
+    let s := runA pred (initA v0) acts
+    Inv s.val ∧ s.val = s.added.foldl (· + ·) v0 := by
+  have h := runA_inv pred Inv hcl v0 _ acts (initA_inv pred Inv v0 h0)
+  exact ⟨h.inv, h.sum⟩
+
+/-- The CAS that adds `delta` succeeds only on a value for which the predicate was evaluated to true: at the instant
+    of the update the current value satisfies the predicate. -/
+theorem C17_addif_cas_sees_pred (pred : W64 → W64 → Bool) (v0 : W64) (acts : List AAct) (t : Nat) (d e : W64) :
+    let s := runA pred (initA v0) acts
+    s.pc t = .cas d e → s.val = e →
+      pred d s.val = true ∧ (stepA pred s (.cas t)).val = s.val + d ∧ (stepA pred s (.cas t)).res t = some true := by
+  intro s hpc hv
+  have h := runA_inv pred (fun _ => True) (fun _ _ _ _ => trivial) v0 _ acts (initA_inv pred _ v0 trivial)
+  refine ⟨by rw [hv]; exact h.seen t d e hpc, ?_, ?_⟩ <;> simp [stepA, hpc, hv, upd_same]
+
+/-- Instance used by the correspondence check: with the predicate `old + delta <= limit` the counter never exceeds the
+    limit, under any contention. -/
+theorem C17_addif_limit (limit : Int) (v0 : W64) (h0 : v0.toInt ≤ limit) (acts : List AAct) :
+    (runA (limitPred limit) (initA v0) acts).val.toInt ≤ limit := by
+  have := C17_addif (limitPred limit) (fun v => v.toInt ≤ limit)
+    (by intro d v hp _; simpa [limitPred] using hp) v0 h0 acts
+  exact this.1
+
+/-- non-vacuity: limit 1, two goroutines add 1 to 0: both load 0 and pass the test, one CAS wins, the loser re-tests
+    against 1 and gives up -/
+example :
+    let s := runA (limitPred 1) (initA 0) [.invoke 1 1, .invoke 2 1, .load 1, .load 2, .cas 1, .cas 2, .load 2]
+    s.val = 1#64 ∧ s.res 1 = some true ∧ s.res 2 = some false := by decide
+
+/-! ## Count is truthful -/
+
+/-- Count() = number of waiters (the word shifted right arithmetically) + 1 if the locked bit is set, for every word. -/
+theorem C17_count (w : Word) :
+    count w = w.toInt / 2 ^ mShift + (if isLocked w then 1 else 0) := by
+  have hs : mShift = 3 := mShift_eq
+  have hb : (w &&& mLocked).toInt = if isLocked w then 1 else 0 := by
+    have e : (w &&& mLocked) = if isLocked w then 1#32 else 0#32 := by
+      unfold isLocked
+      rw [mLocked_eq]
+      by_cases h : w &&& 1#32 = 0#32
+      · simp [h]
+      · have h1 : (w &&& 1#32).toNat < 2 := by
+          rw [BitVec.toNat_and]; exact Nat.lt_of_le_of_lt Nat.and_le_right (by decide)
+        have h2 : (w &&& 1#32).toNat ≠ 0 := fun x => h (BitVec.eq_of_toNat_eq (by simpa using x))
+        have h3 : (w &&& 1#32) = 1#32 := BitVec.eq_of_toNat_eq (by
+          have : (1#32 : Word).toNat = 1 := rfl
+          omega)
+        simp [h3]
+    rw [e]; split <;> rfl
+  unfold count
+  simp only [BitVec.toInt_add, BitVec.toInt_sshiftRight, Int.shiftRight_eq_div_pow, hb, hs]
+  have hr := @BitVec.toInt_lt 32 w
+  have hl := @BitVec.le_toInt 32 w
+  simp at hr hl
+  apply Int.bmod_eq_of_le <;> split <;> omega
+
+/-- the expression of the unchanged tree reported 0 for a held mutex without waiters (state word 1) -/
+theorem C17_old_count_counterexample : countOld 1#32 = 0 ∧ count 1#32 = 1 := by decide
+
+/-- non-vacuity / regression values: held + 2 waiters → 3; unheld + 2 waiters → 2 -/
+example : count 17#32 = 3 ∧ count 16#32 = 2 ∧ countOld 17#32 = 2 := by decide
